@@ -89,7 +89,15 @@ impl DynGroup {
 
             trace!(entries_len = %entries.len());
 
-            let members = ValueSetRefer::from_iter(entries.iter().map(|e| e.get_uuid()));
+            // The dyngroup filter is used as written (it carries no "ignore hidden"
+            // wrapper), so the search also returns recycled and tombstoned entries that
+            // match it. Only live entries can be members.
+            let members = ValueSetRefer::from_iter(
+                entries
+                    .iter()
+                    .filter(|e| e.mask_recycled_ts().is_some())
+                    .map(|e| e.get_uuid()),
+            );
             trace!(?members);
 
             if let Some(uuid_iter) = members.as_ref().and_then(|a| a.as_ref_uuid_iter()) {
@@ -182,9 +190,15 @@ impl DynGroup {
 
         let ident_internal = Identity::from_internal();
 
-        let (n_dyn_groups, entries): (Vec<&Entry<_, _>>, Vec<_>) = cand.iter().partition(|entry| {
-            entry.attribute_equality(Attribute::Class, &EntryClass::DynGroup.into())
-        });
+        let n_dyn_groups: Vec<&Entry<_, _>> = cand
+            .iter()
+            .filter(|entry| {
+                entry.attribute_equality(Attribute::Class, &EntryClass::DynGroup.into())
+            })
+            .collect();
+        // A dynamic group is itself an entry that the filters of the *other* dynamic
+        // groups may match, so every created entry is a candidate member.
+        let entries: Vec<&Entry<_, _>> = cand.iter().collect();
 
         // DANGER: Why do we have to do this? During the use of qs for internal search
         // and other operations we need qs to be mut. But when we borrow dyn groups here we
@@ -301,16 +315,19 @@ impl DynGroup {
 
         let ident_internal = Identity::from_internal();
 
-        // Probably should be filter here instead.
-        let (_, pre_entries): (Vec<&Arc<Entry<_, _>>>, Vec<_>) =
-            pre_cand.iter().partition(|entry| {
-                entry.attribute_equality(Attribute::Class, &EntryClass::DynGroup.into())
-            });
+        // A dynamic group is itself an entry that the filters of the *other* dynamic
+        // groups may match, so every modified entry is a candidate member. (This also keeps
+        // pre and post aligned when an entry gains or loses the dyngroup class.)
+        let pre_entries: Vec<&Arc<Entry<_, _>>> = pre_cand.iter().collect();
 
-        let (n_dyn_groups, post_entries): (Vec<&Entry<_, _>>, Vec<_>) =
-            cand.iter().partition(|entry| {
+        let n_dyn_groups: Vec<&Entry<_, _>> = cand
+            .iter()
+            .filter(|entry| {
                 entry.attribute_equality(Attribute::Class, &EntryClass::DynGroup.into())
-            });
+            })
+            .collect();
+
+        let post_entries: Vec<&Entry<_, _>> = cand.iter().collect();
 
         // DANGER: Why do we have to do this? During the use of qs for internal search
         // and other operations we need qs to be mut. But when we borrow dyn groups here we
